@@ -450,6 +450,78 @@ extern "C" size_t LLVMFuzzerCustomMutator(uint8_t* data, size_t size, size_t max
     size_t ns = next() % size;  // truncate
     return ns ? ns : 1;
   }
+  if (mode == 6 && size > 0x200 && data[0] == 'M' && data[1] == 'Z')
+  {
+    // composite: put the end of the file right behind a table that some data directory points to
+    // (follow an RVA found inside the directory through the section table, cut a few entries
+    // behind its target) and, half of the time, also bump a count-like field of the directory -
+    // the shape "table at the very end of the data, count one too large"
+    size_t pe = rd32(data, size, 0x3c);
+    if (pe + 0x108 < size)
+    {
+      size_t opt = pe + 24, nsec = data[pe + 6] | data[pe + 7] << 8, optsz = data[pe + 20] | data[pe + 21] << 8;
+      auto map_rva = [&](size_t rva) -> size_t {
+        for (size_t sec = 0; sec < nsec && sec < 32; sec++)
+        {
+          size_t sh = opt + optsz + sec * 40;
+          if (sh + 40 > size)
+            break;
+          size_t va = rd32(data, size, sh + 12), vs = rd32(data, size, sh + 8), raw = rd32(data, size, sh + 20);
+          if (rva >= va && rva < va + (vs ? vs : 1))
+            return raw + (rva - va);
+        }
+        return rva;
+      };
+      for (int attempt = 0; attempt < 16; attempt++)
+      {
+        size_t dd = next() % 16;
+        size_t drva = rd32(data, size, opt + 96 + dd * 8);
+        if (!drva)
+          continue;
+        size_t doff = map_rva(drva);
+        if (!doff || doff + 48 > size)
+          continue;
+        size_t target = map_rva(rd32(data, size, doff + 4 * (next() % 12)));
+        if (target < 0x200 || target >= size)
+          continue;
+        auto bump = [&](size_t foff, size_t limit) {
+          uint32_t old = rd32(data, size, foff);
+          uint32_t v = (uint32_t[]){old + 1, old + 2, old * 2, old + 16, old + 3}[next() % 5];
+          if (foff + 4 <= limit)
+            for (int k = 0; k < 4; k++) data[foff + k] = (uint8_t) (v >> (8 * k));
+        };
+        if (next() % 2)
+        {
+          // variant without truncation: redirect one RVA field of the directory to the last few bytes
+          // of the file (so that table runs into the end of the data) and bump a small count field
+          size_t last = opt + optsz + (nsec ? (std::min<size_t>(nsec, 32) - 1) : 0) * 40;
+          size_t lva = rd32(data, size, last + 12), lraw = rd32(data, size, last + 20);
+          size_t aoff = doff + 4 * (next() % 12);
+          if (lraw && lraw < size && aoff + 4 <= size)
+          {
+            uint32_t v = (uint32_t) (lva + (size - lraw) - 2 * (1 + next() % 8));
+            for (int k = 0; k < 4; k++) data[aoff + k] = (uint8_t) (v >> (8 * k));
+            for (int tries = 0; tries < 8; tries++)
+            {
+              size_t foff = doff + 4 * (next() % 12);
+              if (foff != aoff && rd32(data, size, foff) < 0x10000)
+              {
+                bump(foff, size);
+                break;
+              }
+            }
+            return size;
+          }
+        }
+        size_t cut = target + 2 * (next() % 48);
+        if (cut >= size)
+          cut = size - (next() % 4);
+        if (next() % 2)
+          bump(doff + 4 * (next() % 12), cut);
+        return cut;
+      }
+    }
+  }
   return LLVMFuzzerMutate(data, size, max_size);
 }
 #endif
